@@ -7,3 +7,5 @@ def find(ctx, oblig, diag):
     res = dict(ctx["cache"]["search"])
     if res.get("violates"): res["source"] = "boundary/odd-key search through the public path parsers, both addressing styles"
     return res
+
+standing = find
